@@ -3,11 +3,14 @@ package main
 import (
 	"verif/drv"
 
+	_ "verif/props/c07"
+	_ "verif/props/c08"
 	_ "verif/props/c11"
 	_ "verif/props/c13"
 	_ "verif/props/c14"
 	_ "verif/props/c16"
 	_ "verif/props/c17"
+	_ "verif/props/c19"
 	_ "verif/props/c20"
 )
 
